@@ -450,6 +450,16 @@ def register_period_acceptance(db):
             hints += [f"find_in(':', {', '.join(flat)})", f"rfind_in('-', {', '.join(flat)})", f"rfind_in('-', {', '.join(date)})"]
             if tzp:
                 hints.append(f"substr_at(value, '', {_cat(date)}, {_cat(tzp)})")
+            if shape in ("gMonth", "gMonthDay"):
+                # the legacy '--MM--' test looks at value[4:6]: name the characters at positions 4 and 5
+                hints += ["char_of_slice(value, 4, 2, 0)", "char_of_slice(value, 4, 2, 1)"]
+                for idx in range(3, len(flat)):
+                    pre, piece, post = _cat(flat[:idx]), flat[idx], _cat(flat[idx + 1:])
+                    if piece.startswith("pad("):
+                        w = int(piece.rsplit(",", 1)[1].strip(" )"))
+                        hints += [f"chars_at(value, {pre}, {piece}, {w}, {post})", f"digit_chars({piece}, {w})"]
+                    else:
+                        hints.append(f"substr_at(value, {pre}, {piece}, {post})")
             post = [("year", f"result.year == {yy}" if yy else "result.year is None"),
                     ("month", f"result.month == {mo}" if mo else "result.month is None"),
                     ("day", f"result.day == {dd}" if dd else "result.day is None"),
